@@ -31,7 +31,7 @@ ASSUMPTIONS = ["the OpenPGP path is driven through an in-process stand-in for se
                "gpg binary is exercised in C10"]
 
 OPS = ["write_other", "load", "load", "load_mutate_load", "sign_raw", "sign_raw", "sign_raw", "sign_gpg", "sign_gpg",
-       "rewrite_sloppy", "rewrite_sloppy", "reload_cycle", "reload_cycle"]
+       "rewrite_sloppy", "rewrite_sloppy", "reload_cycle", "reload_cycle", "junk_authorized", "verify_inplace", "verify_inplace"]
 
 
 @st.composite
@@ -210,6 +210,37 @@ def check_history(case):
                 check_file(step, True)
                 sign_steps += 1
                 signers_since.append(k)
+            elif op == "junk_authorized":
+                # somebody files a malformed entry under an AUTHORIZED key that has not signed (yet): it is last in insertion
+                # order and anywhere once the file has been written (sorted) and loaded
+                if not RV.threshold_args_ok(model, pubs, 1):
+                    continue
+                free = [p_ for p_ in pubs if p_ not in model["signatures"]]
+                if not free:
+                    continue
+                junk = [{"signature": "AB" * 64}, {"signature": "zz"}, "not a signature", None, {"signature": "ab" * 63},
+                        {"other_headers": "zz", "signature": "ab" * 64}][arg % 6]
+                env = C.load_metadata_from_file(fn)
+                env["signatures"][free[arg % len(free)]] = copy.deepcopy(junk)
+                C.write_metadata_to_file(env, fn)
+                model["signatures"][free[arg % len(free)]] = copy.deepcopy(junk)
+                check_file(step, True)
+            elif op == "verify_inplace":
+                # the holder of the stored envelope asks about it with the object it loaded (no copies), also with a threshold
+                # it cannot meet, and then writes that same object back: asking must not have changed it
+                if not RV.threshold_args_ok(model, pubs, 1):
+                    continue
+                env = C.load_metadata_from_file(fn)
+                auth = list(pubs)
+                for thr in (len(pubs) + 1, 2, 1):
+                    for gpg in (False, True):
+                        RV.outcome(A.verify_signable, env, auth, thr, gpg=gpg)
+                if not jeq(env, model) or auth != pubs:
+                    raise Violation("after step %s: verify_signable changed the envelope / the key list it was asked about (entries %d -> %d, "
+                                    "keys %d -> %d)" % (step, len(model["signatures"]), len(env.get("signatures", {})), len(pubs), len(auth)),
+                                    bucket="verification modifies the stored envelope")
+                C.write_metadata_to_file(env, fn)
+                check_file(step, True)
             elif op == "rewrite_sloppy":
                 style = GR.STYLES[arg % len(GR.STYLES)]
                 with open(fn, "wb") as f:
